@@ -31,17 +31,27 @@ impl writer::Normalized for Push {}
 fn single(seed: u64, idx: u64) -> Tally {
     let prof = spec::Profile::by_name("c20");
     let mut case = spec::generate(&prof, seed, idx);
-    case.cfg.before_hook = true;
-    case.cfg.after_hook = true;
     case.cfg.custom_which = false;
     world::reset(case.plan.clone(), case.world_plan.clone(), case.world_gates);
     world::with_rs(|rs| rs.emit_logs = true);
     let (parser, shared) = exec::parser_for(&case);
     let sink = Push::default();
-    let r = exec::base_runner(&case.cfg).before(world::before_hook).after(world::after_hook);
     let opts = cli::Opts::<cli::Empty, runner::basic::Cli, cli::Empty, cli::Empty> { runner: exec::runner_cli(&case.cfg), ..Default::default() };
-    let cuc = Cucumber::<TW, P, (), _, Push, cli::Empty>::custom(P(parser), r, sink.clone()).with_cli(opts).init_tracing();
-    let mut fut: Pin<Box<dyn std::future::Future<Output = Push>>> = Box::pin(cuc.run(()));
+    // The facade's type depends on which hooks are set: one arm per combination.
+    macro_rules! start {
+        ($r:expr) => {{
+            let cuc = Cucumber::<TW, P, (), _, Push, cli::Empty>::custom(P(parser), $r, sink.clone()).with_cli(opts).init_tracing();
+            let f: Pin<Box<dyn std::future::Future<Output = Push>>> = Box::pin(cuc.run(()));
+            f
+        }};
+    }
+    let base = exec::base_runner(&case.cfg);
+    let mut fut = match (case.cfg.before_hook, case.cfg.after_hook) {
+        (true, true) => start!(base.before(world::before_hook).after(world::after_hook)),
+        (true, false) => start!(base.before(world::before_hook)),
+        (false, true) => start!(base.after(world::after_hook)),
+        (false, false) => start!(base),
+    };
     let q = sink.0.clone();
     let mut done = false;
     let stream = stream::poll_fn(move |cx| {
